@@ -11,7 +11,7 @@ CONSTANTS
   B1s = {3, 13, 0}
   Empties = TRUE
   Bufs = {"fresh"}
-  ChCfgs <- ChTwo
+  ChCfgs = {"c2"}
   TagCfgs <- TagTwo
   Rates <- RatesOne
   Sample = FALSE
